@@ -367,13 +367,11 @@ def c10_eligible(spec, params):
 
 
 def c10_in_partial(spec, params):
-    """inside the hypotheses under which clause 3 is claimed: the two kept findings are excluded
-    (FIFO rule: F16; an automatic task that starts with no work left: F26)"""
+    """inside the hypotheses under which clause 3 is claimed: the kept finding is excluded
+    (FIFO rule: F16).  The former exclusion of automatic tasks that start with no work left (F26)
+    is gone: /repo commit c33e3f4 repaired that defect."""
     if params["rule"] == 4:
         return False
-    for t in spec["tasks"]:
-        if t.get("auto") and t["work"] * (1.0 - t.get("prog", 0.0)) <= 0:
-            return False
     return True
 
 
@@ -393,6 +391,15 @@ def c10_removal_differs(spec, p1):
 def run_c10_removal(ctx, n):
     fps = set()
     n_eval = 0
+    # minimised past failures run first
+    cpath = os.path.join(os.path.dirname(HERE), "corpus", "c10_removal.json")
+    if os.path.exists(cpath):
+        for d in json.load(open(cpath)):
+            n_eval += 1
+            dd = c10_removal_differs(d["spec"], d["params"])
+            if dd:
+                ctx.violations.append(dict(property="C10", what="removing the absence steps %s does not give the absence-free run (corpus witness: %s; differs in %s)" % (
+                    d["params"]["absence"], d["label"], dd[:6]), case=dict(stream="c10-removal-corpus", spec=d["spec"], params=d["params"])))
     for i in range(n * 3):
         if n_eval >= n:
             break
